@@ -694,11 +694,12 @@ def mechanism(state, a, reported, r, o=None, case=None):
             any(e['op'] in ('rename', 'replace') and e.get('r') in ('V', 'E') and
                 e.get('e') == 18 for e in r.events) and \
             any(e['op'] in ('rmdir', 'unlink', 'remove') and
-                e.get('r') in ('V', 'E') and e.get('e') == 16 for e in r.events):
-        # the F12 finding with a natural error: the entry is (or contains) a
-        # mount point, the cross-device copy succeeds, the deletion of the
-        # source stops at the busy mount point; .trashinfo withdrawn, copy
-        # left as an orphan, source partly removed, failure reported
+                e.get('r') in ('V', 'E') and e.get('e') in (16, 13, 1, 30)
+                for e in r.events):
+        # the F12 finding with a natural error: the cross-device copy
+        # succeeds, the deletion of the source fails (a busy mount point
+        # inside it, a read-only parent directory); .trashinfo withdrawn,
+        # copy left as an orphan, source (partly) still there, failure reported
         return 'fallback-copy-fault-leaves-orphan-payload'
     exitc = 'exit0' if r.exit == 0 else 'exitN'
     return '%s/%s/%s%s' % (state, cls, exitc, '/reported' if reported else '')
